@@ -302,6 +302,14 @@ func init() {
 			for _, item := range []string{`"` + strings.Repeat("s", 1200000) + `"`, "#" + strings.Repeat("c", 1200000) + "\n", strings.Repeat(" ", 1200000), strings.Repeat("\n", 1100000), strings.Repeat("i", 1100000)} {
 				c.Do(subC07, &c07Case{Src: "print 1\nprint " + item + " print 2\nprint )", Mode: "bigpages"})
 			}
+			// inputs beyond 16 MiB (thorough: 64 MiB), mostly comment lines: the same program as from memory
+			for _, mib := range []int{17, 33, 65} {
+				if mib > 33 && !c.Thorough() {
+					continue
+				}
+				line := "# " + strings.Repeat("c", 97) + "\n"
+				c.Do(subC07, &c07Case{Src: "print 1\n" + strings.Repeat(line, mib*(1<<20)/len(line)) + "def b { x = 1 }\nprint )", Mode: "bigpages"})
+			}
 			// SEVERAL lexical items that each span two or more pages, of every kind, one after the other (what an earlier long
 			// item left behind in the lexer meets the next one), and numbers / names / strings cut by a page boundary mid-way
 			for _, n := range []int{4090, 4100, 8200, 9000, 13000} {
